@@ -346,6 +346,35 @@ fn run_c15(ctx: &Ctx) {
             }
         }),
     ));
+    // (e2) displacements far beyond the range, incl. multiples of 4 GiB / 16 GiB plus a small rest (a check done
+    // in a narrower integer type would see only the rest)
+    batches.push((
+        "disp-huge".into(),
+        Box::new(move |b, w, rng| {
+            for k in 1..=64i64 {
+                for &unit in &[1i64 << 32, 1i64 << 33, 1i64 << 34, 1i64 << 36, 1i64 << 40] {
+                    for sgn in [1i64, -1] {
+                        let r = rng.range(-(1 << 25), (1 << 25) - 1) * 4;
+                        let d = sgn * k * unit + r;
+                        let src = 0x0000_2000_0000_0000u64 + (rng.below(1 << 30) << 2);
+                        let jit = (src as i64).wrapping_add(d) as u64;
+                        if jit < 0x1000 || jit > 0x0000_7FFF_FFFF_F000 {
+                            continue;
+                        }
+                        c15_one(b, w, src, jit, user_addr(rng), None, rng.next());
+                    }
+                }
+            }
+            for _ in 0..ndisp / 4 {
+                let src = user_addr(rng);
+                let jit = user_addr(rng);
+                if (jit as i64 - src as i64).abs() < 64 {
+                    continue;
+                }
+                c15_one(b, w, src, jit, user_addr(rng), None, rng.next());
+            }
+        }),
+    ));
     // (f) macOS long form: pc/target pairs over +-4 GiB with all low-12-bit / page-carry combinations
     if MACOS {
         batches.push((
@@ -543,6 +572,22 @@ fn run_c16(ctx: &Ctx) {
                         if dest.len() == 2 && dest[0] == dest[1] {
                             b.fail("boolean-true-and-false-branch-to-the-same-place", J::new());
                         }
+                        // the helper the stub branches to is one function with one address and one
+                        // instruction-set state: whatever the state of the function being replaced, the word
+                        // loaded must be the same as for an ARM-state entry
+                        let mut refd = Vec::new();
+                        for v in [true, false] {
+                            let e = 0x3000_0000u32 + ((rng.below(1 << 20) as u32) << 4);
+                            if install(Arch::Arm, e as u64, 0, 0, Some(v), rng.next()).is_ok() {
+                                let w = arm32::walk(e, false, &|a| rd8(a as u64));
+                                if let arm32::End::Arrived { addr, thumb: th } = w.end {
+                                    refd.push(addr | th as u32);
+                                }
+                            }
+                        }
+                        if dest.len() == 2 && refd.len() == 2 && dest != refd {
+                            b.fail("boolean-helper-entered-at-a-different-address-or-state-than-from-an-ARM-entry", J::new().s("from_this_entry", &format!("{:x?}", dest)).s("from_arm_entry", &format!("{:x?}", refd)));
+                        }
                     }
                 }
                 total += b.evals;
@@ -555,6 +600,92 @@ fn run_c16(ctx: &Ctx) {
     finish_words(ctx, &words);
     let nj = notes.iter().fold(J::new(), |j, (k, v)| j.n(k, *v));
     out::summary(&J::new().n("evaluations_total", total).n("distinct_instruction_words", words.seen.len()).o("notes_not_judged", nj).b("release", !cfg!(debug_assertions)));
+}
+
+// ===================================================================================== C13 (AArch64 / ARM part)
+/// Registers the caller owns at the moment of the call: argument registers, the hidden-return-slot
+/// register, the callee-saved set, the link register and the stack pointer. The bytes between the
+/// caller's branch and the fake's first instruction may write none of them.
+fn run_c13sim(ctx: &Ctx) {
+    let mut words = Words { seen: BTreeSet::new() };
+    let mut total = 0u64;
+    let n: u64 = if ctx.n > 0 { ctx.n } else if ctx.thorough { 400_000 } else { 20_000 };
+    let parts = ["a64-short", "a64-far-fake", "a32", "t32-aligned", "t32-2mod4"];
+    for (idx, part) in parts.iter().enumerate() {
+        let idx = idx as u64;
+        if !ctx.mine(idx) {
+            continue;
+        }
+        let class = format!("c13/{}/{}/{}", if MACOS { "macos" } else { "linux" }, if cfg!(debug_assertions) { "dev" } else { "release" }, part);
+        out::intent(idx, &class, &J::new().s("crash_sig", part));
+        let mut b = Batch::new();
+        let mut rng = Rng::new(ctx.seed ^ rng::hash64(idx ^ 0xC13));
+        let mut written_sets: BTreeMap<String, u64> = BTreeMap::new();
+        for _ in 0..n {
+            if part.starts_with("a64") {
+                let src = user_addr(&mut rng);
+                let pages = if MACOS && rng.chance(1, 2) { rng.range(-(1i64 << 19), (1i64 << 19) - 1) } else { rng.range(-30000, 30000) };
+                let jit = ((src & !0xFFF) as i64 + pages * 4096) as u64;
+                if (jit as i64 - src as i64).abs() < 64 || jit == 0 || jit >> 47 != 0 {
+                    continue;
+                }
+                let fake = if *part == "a64-far-fake" { rng.next() | 4 } else { (src as i64 + rng.range(-(1 << 20), 1 << 20) * 4) as u64 };
+                b.evals += 1;
+                if install(Arch::Arm64, src, jit, fake, None, rng.next()).is_err() {
+                    b.refused += 1;
+                    continue;
+                }
+                let w = a64::walk(src, fake, &|a| rd32(a), &|a| rd64(a), &|a| written_here(a));
+                for (_, word, text) in &w.path {
+                    words.seen.insert(("aarch64".into(), *word, text.clone()));
+                }
+                match w.end {
+                    a64::End::Unknown { .. } => b.unknown += 1,
+                    _ => {
+                        *written_sets.entry(format!("{:?}", w.written)).or_insert(0) += 1;
+                        let bad: Vec<u8> = w.written.iter().cloned().filter(|r| !(9..=17).contains(r)).collect();
+                        if !bad.is_empty() {
+                            let what = if bad.contains(&8) { "hidden-return-slot-register-x8-written" } else if bad.iter().any(|r| *r <= 7) { "argument-register-written" } else { "callee-saved-or-reserved-register-written" };
+                            b.fail(&format!("a64-{}", what), J::new().x("entry", src as usize).x("trampoline", jit as usize).x("fake", fake as usize).s("registers_written", &format!("{:?}", w.written)).s("path", &format!("{:x?}", w.path.iter().map(|(a, wd, t)| format!("{:x}:{:08x} {}", a, wd, t)).collect::<Vec<_>>())));
+                        }
+                    }
+                }
+            } else {
+                let thumb = *part != "a32";
+                let rem = if *part == "t32-2mod4" { 2 } else { 0 };
+                let e = ((rng.next() as u32) & 0xFFFF_FFF0 & !3).wrapping_add(rem).max(16);
+                let f = ((rng.next() as u32) & !1).max(2) | (rng.below(2) as u32);
+                b.evals += 1;
+                if install(Arch::Arm, e as u64 | thumb as u64, 0, f as u64, None, rng.next()).is_err() {
+                    b.refused += 1;
+                    continue;
+                }
+                let w = arm32::walk(e, thumb, &|a| rd8(a as u64));
+                for (_, enc, hw, text) in &w.path {
+                    let arch = if !thumb { "a32" } else if *hw == 1 { "t16" } else { "t32" };
+                    words.seen.insert((arch.into(), *enc, text.clone()));
+                }
+                match w.end {
+                    arm32::End::Unknown { .. } => b.unknown += 1,
+                    _ => {
+                        *written_sets.entry(format!("{:?}", w.written)).or_insert(0) += 1;
+                        // r12 (ip) is the only register the procedure-call standard lets a veneer corrupt
+                        let bad: Vec<u8> = w.written.iter().cloned().filter(|r| *r != 12 && *r != 15).collect();
+                        if !bad.is_empty() {
+                            let what = if bad.iter().any(|r| *r <= 3) { "argument-register-written" } else if bad.contains(&13) { "stack-pointer-written" } else if bad.contains(&14) { "link-register-written" } else { "callee-saved-register-written" };
+                            b.fail(&format!("{}-{}", part, what), J::new().x("entry", e as usize).x("fake", f as usize).s("registers_written", &format!("{:?}", w.written)).s("path", &format!("{:?}", w.path.iter().map(|(a, en, _, t)| format!("{:x}:{:x} {}", a, en, t)).collect::<Vec<_>>())));
+                        }
+                    }
+                }
+            }
+        }
+        total += b.evals;
+        let ws = written_sets.iter().fold(J::new(), |j, (k, v)| j.n(k, *v));
+        let d = J::new().n("evaluations", b.evals).n("refused", b.refused).n("unknown_encodings", b.unknown).o("register_sets_written_on_the_way_to_the_fake", ws);
+        b.emit(idx, &class, d);
+    }
+    finish_words(ctx, &words);
+    out::summary(&J::new().n("evaluations_total", total).n("distinct_instruction_words", words.seen.len()).b("macos_variant", MACOS).b("release", !cfg!(debug_assertions)));
 }
 
 // ===================================================================================== C01 (simulation part), C10 amd64 stub bytes
@@ -644,6 +775,18 @@ fn run_c11sim(ctx: &Ctx) {
                     one(&mut b, src, centre + pg * 4096, &mut rng);
                 }
             } else {
+                for k in 1..=32i64 {
+                    for &unit in &[1i64 << 32, 1i64 << 34, 1i64 << 36] {
+                        for sgn in [1i64, -1] {
+                            let d = sgn * k * unit + rng.range(-(1 << 25), (1 << 25) - 1) * 4;
+                            let src = 0x0000_2000_0000_0000u64 + (rng.below(1 << 30) << 2);
+                            if MACOS {
+                                continue;
+                            }
+                            one(&mut b, src, d, &mut rng);
+                        }
+                    }
+                }
                 for _ in 0..20_000 {
                     let mag = (1i64 << 27) + rng.range(0, (1i64 << 32) - (1i64 << 27));
                     let d = (if rng.chance(1, 2) { mag } else { -mag }) & !3;
@@ -885,6 +1028,7 @@ fn main() {
     match ctx.scenario.as_str() {
         "c15" => run_c15(&ctx),
         "c16" => run_c16(&ctx),
+        "c13sim" => run_c13sim(&ctx),
         "c01sim" => run_c01sim(&ctx),
         "c02sim" => run_c02sim(&ctx),
         "c11sim" => run_c11sim(&ctx),
